@@ -34,15 +34,16 @@ func enumText(items []Value, layout int) string {
 		lits[i] = it.JSON()
 	}
 	switch layout {
-	case 1:
+	case 1, 4, 5:
+		nl := map[int]string{1: "\n", 4: "\r\n", 5: "\r"}[layout]
 		var sb strings.Builder
-		sb.WriteString("[\n")
+		sb.WriteString("[" + nl)
 		for i, l := range lits {
 			sb.WriteString("  " + l)
 			if i < len(lits)-1 {
 				sb.WriteString(",")
 			}
-			sb.WriteString(" // comment " + strconv.Itoa(i) + "\n")
+			sb.WriteString(" // comment " + strconv.Itoa(i) + nl)
 		}
 		sb.WriteString("]")
 		return sb.String()
